@@ -53,18 +53,18 @@ Definition parse_proto_chain (fx : fixes) (s : slice) (f : frame) (proto : N) : 
     p <- payload_view s f ;;
     _ <- icmp_is_valid p ;;
     t <- icmp_type p ;;
-    f <- (if t =? 0 then                                (* ICMP4TypeEchoReply *)
+    f <- (if (t =? 0) && echo_gate s f PayloadICMP4 then                                (* ICMP4TypeEchoReply *)
             _ <- icmp_is_valid p ;;                     (* ICMPEcho.IsValid: same test *)
-            id <- echo_id p ;; Ok (set_echo f (Some id))
+            e <- echo_id p ;; Ok (set_echo f (Some e))
           else Ok f) ;;
     Ok (set_id f PayloadICMP4)
   else if proto =? 58 then                              (* IPPROTO_ICMPV6 *)
     p <- payload_view s f ;;
     _ <- icmp_is_valid p ;;
     t <- icmp_type p ;;
-    f <- (if t =? 129 then                              (* ICMP6TypeEchoReply *)
+    f <- (if (t =? 129) && echo_gate s f PayloadICMP6 then                              (* ICMP6TypeEchoReply *)
             _ <- icmp_is_valid p ;;
-            id <- echo_id p ;; Ok (set_echo f (Some id))
+            e <- echo_id p ;; Ok (set_echo f (Some e))
           else Ok f) ;;
     Ok (set_id f PayloadICMP6)
   else if proto =? 2 then                               (* IPPROTO_IGMP *)
